@@ -368,7 +368,7 @@ def kind_opts(kind, thorough, rnd=None):
     return out
 
 
-ARG_EXPR = {"none", "str", "int", "float", "bool", "OptStr", "OptInt", "OptBool", "ListStr", "LitStr", "OptDict"}
+ARG_EXPR = {"none", "str", "int", "float", "bool", "OptStr", "OptInt", "OptBool", "ListStr", "LitStr", "LitInt", "OptDict"}
 
 
 def argparse_domain(air):
